@@ -1,3 +1,4 @@
+mod alloc;
 mod bench;
 mod common;
 mod pool;
@@ -39,6 +40,8 @@ fn main() {
                     "pool" => common::run_scenario(&sc, &mut out, &mut stats, pool::body),
                     "bench" => common::run_scenario(&sc, &mut out, &mut stats, bench::body),
                     "stats" => stats::run(&sc, &mut out),
+                    "alloc" => common::run_scenario(&sc, &mut out, &mut stats, alloc::body),
+                    "fwd" => common::run_scenario(&sc, &mut out, &mut stats, alloc::fwd_body),
                     other => {
                         eprintln!("unknown scenario kind {other:?}");
                         std::process::exit(2);
